@@ -296,6 +296,9 @@ func (fs *FS) Rename(oldname, newname string) error {
 	} else if !errors.Is(err, hackpadfs.ErrNotExist) {
 		return linkErr(err)
 	}
+	if oldname == "." {
+		return linkErr(hackpadfs.ErrPermission) // the root directory cannot be moved
+	}
 	if oldInfo.IsDir() && strings.HasPrefix(newname, oldname+"/") {
 		return linkErr(hackpadfs.ErrInvalid)
 	}
